@@ -142,14 +142,11 @@ func (c05) Generate(seed uint64, tier string, index int) any {
 	if sc.Side == "module" {
 		sc.Sub = []string{"", "", "sub/", "link_out/", "link_up/", "../", "../sibling_dir/", "link_abs/", "a/../../"}[g.R.Intn(9)]
 	}
-	// symlinks sent earlier in the same list
-	sc.Entries = append(sc.Entries,
-		C05Entry{Name: "evil", Type: "l", Link: "../sibling_dir", Perm: 0o777},
-		C05Entry{Name: "evil2", Type: "l", Link: "%A", Perm: 0o777},
-		C05Entry{Name: "evil_up", Type: "l", Link: "..", Perm: 0o777},
-	)
-	n := 2 + g.R.Intn(8)
-	for i := 0; i < n; i++ {
+	// one or two hostile entries per list (the receiver stops at the first
+	// entry it refuses, so more would mostly go untested), preceded by the
+	// symlinks the vector needs "sent earlier in the same list", plus benign ones
+	nh := 1 + g.R.Intn(2)
+	for i := 0; i < nh; i++ {
 		e := C05Entry{Name: fstree.Name(c05Names[g.R.Intn(len(c05Names))]), Perm: uint32(g.R.Intn(0o1000))}
 		e.Type = []string{"f", "f", "f", "d", "l", "fifo", "sock", "chr"}[g.R.Intn(8)]
 		switch e.Type {
@@ -158,7 +155,19 @@ func (c05) Generate(seed uint64, tier string, index int) any {
 		case "f":
 			e.Size = int64(g.R.Intn(3000))
 		}
+		n := string(e.Name)
+		switch {
+		case strings.HasPrefix(n, "evil2/"):
+			sc.Entries = append(sc.Entries, C05Entry{Name: "evil2", Type: "l", Link: "%A", Perm: 0o777})
+		case strings.HasPrefix(n, "evil_up/"):
+			sc.Entries = append(sc.Entries, C05Entry{Name: "evil_up", Type: "l", Link: "..", Perm: 0o777})
+		case strings.HasPrefix(n, "evil/"):
+			sc.Entries = append(sc.Entries, C05Entry{Name: "evil", Type: "l", Link: "../sibling_dir", Perm: 0o777})
+		}
 		sc.Entries = append(sc.Entries, e)
+	}
+	for i := 0; i < g.R.Intn(3); i++ {
+		sc.Entries = append(sc.Entries, C05Entry{Name: fstree.Name("benign_" + g.NameComponent(true)), Type: "f", Perm: 0o644, Size: int64(g.R.Intn(500))})
 	}
 	sc.Tr = g.TransportFor(12, 64<<10)
 	if sc.Tr.CapSC != kernel.Unbounded && sc.Tr.CapSC < 4096 {
